@@ -108,7 +108,7 @@ def run(res):
     exe = build.fastpasta("rel")
     wd = scratch("c05")
     quick = res.tier == "quick"
-    n, K = (12, 12) if quick else (60, 60)
+    n, K = (12, 12) if quick else (300, 80)
     explored = 0
     tot_orders = 0
     for o in pmap(one_case, [(exe, wd, res.seed, c, res.tier, K) for c in range(n)], workers=8):
